@@ -171,3 +171,466 @@ Proof.
     + subst add. rewrite app_nil_r in Hcol. rewrite Hcol. cbn [app]. reflexivity.
     + destruct Hadd as (nv0 & Hp & ->). rewrite Hp. rewrite Hcol. rewrite <- !app_assoc. reflexivity.
 Qed.
+
+(* ---------- names: equality is equality of a canonical key ---------- *)
+Definition lower (s : bytes) : bytes := map to_lower s.
+
+Lemma nocase_lower a : forall b, bytes_eqb_nocase a b = bytes_eqb (lower a) (lower b).
+Proof. induction a as [|x a IH]; intros [|y b]; simpl; try reflexivity. unfold eqb_nocase. now rewrite IH. Qed.
+
+Lemma nocase_iff a b : bytes_eqb_nocase a b = true <-> lower a = lower b.
+Proof. rewrite nocase_lower. apply bytes_eqb_eq. Qed.
+
+Lemma nocase_refl a : bytes_eqb_nocase a a = true.
+Proof. now apply nocase_iff. Qed.
+
+Lemma nocase_sym a b : bytes_eqb_nocase a b = bytes_eqb_nocase b a.
+Proof.
+  destruct (bytes_eqb_nocase a b) eqn:E1, (bytes_eqb_nocase b a) eqn:E2; try reflexivity.
+  - apply nocase_iff in E1. symmetry in E1. apply nocase_iff in E1. congruence.
+  - apply nocase_iff in E2. symmetry in E2. apply nocase_iff in E2. congruence.
+Qed.
+
+Inductive hkey := KKnown (i : nat) | KUnknown (l : bytes).
+Definition key (n : hname) : hkey := match n with HKnown i => KKnown i | HUnknown b => KUnknown (lower b) end.
+
+(* a name is well formed when it is what Name::from_bytes makes of its own print string: known names are
+   table rows, unknown names are not spellings of a known one *)
+Definition name_wf (n : hname) : Prop := hname_of (hname_print n) = n.
+
+Definition n_names : nat := Eval vm_compute in length sip_header_names.
+
+Lemma find_entry_bound s : forall l i j, find_entry s l i = Some j -> i <= j < i + length l.
+Proof.
+  induction l as [|e l IH]; simpl; intros i j H; [discriminate|].
+  destruct (existsb _ (snd e)); [injection H as <-; lia|]. apply IH in H. lia.
+Qed.
+
+Lemma find_entry_none s : forall l i, find_entry s l i = None ->
+  forall e, In e l -> existsb (fun p => bytes_eqb_nocase p s) (snd e) = false.
+Proof.
+  induction l as [|e l IH]; simpl; intros i H e0 Hin; [contradiction|].
+  destruct (existsb _ (snd e)) eqn:E; [discriminate|]. destruct Hin as [<-|Hin]; [exact E| eapply IH; eauto].
+Qed.
+
+Lemma known_wf_bound i : name_wf (HKnown i) -> i < n_names.
+Proof.
+  unfold name_wf, hname_of. cbn [hname_print]. destruct (find_entry _ _ 0) eqn:E; [|discriminate].
+  intros H. injection H as ->. apply find_entry_bound in E. exact (proj2 E).
+Qed.
+
+(* table facts, by evaluation over the generated table *)
+Lemma table_known_known :
+  forallb (fun i => forallb (fun j => Bool.eqb (hname_eqb (HKnown i) (HKnown j)) (Nat.eqb i j)) (seq 0 n_names)) (seq 0 n_names) = true.
+Proof. vm_compute. reflexivity. Qed.
+
+(* every print string is, ignoring case, one of its own parse strings *)
+Lemma table_print_in_parse :
+  forallb (fun e => existsb (fun p => bytes_eqb_nocase p (fst e)) (snd e)) sip_header_names = true.
+Proof. vm_compute. reflexivity. Qed.
+
+Lemma known_known i j : i < n_names -> j < n_names -> hname_eqb (HKnown i) (HKnown j) = Nat.eqb i j.
+Proof.
+  intros Hi Hj. pose proof table_known_known as T. rewrite forallb_forall in T.
+  specialize (T i (proj2 (in_seq _ _ _) (conj (Nat.le_0_l _) Hi))). rewrite forallb_forall in T.
+  specialize (T j (proj2 (in_seq _ _ _) (conj (Nat.le_0_l _) Hj))). now apply eqb_prop in T.
+Qed.
+
+Lemma existsb_false {A} (f : A -> bool) l : (forall x, In x l -> f x = false) -> existsb f l = false.
+Proof. induction l; simpl; intros H; [reflexivity|]. rewrite (H a (or_introl eq_refl)). apply IHl. auto. Qed.
+
+(* an unknown well-formed name equals no table row *)
+Lemma unknown_vs_row b i : name_wf (HUnknown b) -> i < n_names ->
+  bytes_eqb_nocase (fst (hn_entry i)) b = false /\ existsb (fun p => bytes_eqb_nocase p b) (snd (hn_entry i)) = false.
+Proof.
+  unfold name_wf, hname_of. cbn [hname_print]. destruct (find_entry b sip_header_names 0) eqn:E; [discriminate|]. intros _ Hi.
+  assert (Hin : In (hn_entry i) sip_header_names) by (apply nth_In; exact Hi).
+  pose proof (find_entry_none _ _ _ E _ Hin) as Hn. split; [|exact Hn].
+  pose proof table_print_in_parse as T. rewrite forallb_forall in T. specialize (T _ Hin).
+  apply existsb_exists in T as (p & Hp & Hpe).
+  destruct (bytes_eqb_nocase (fst (hn_entry i)) b) eqn:Eb; [|reflexivity].
+  (* p ~ print ~ b contradicts Hn *)
+  assert (bytes_eqb_nocase p b = true).
+  { apply nocase_iff. apply nocase_iff in Hpe, Eb. congruence. }
+  assert (Hf : existsb (fun p => bytes_eqb_nocase p b) (snd (hn_entry i)) = true) by (apply existsb_exists; eauto).
+  congruence.
+Qed.
+
+Lemma eqb_key a b : name_wf a -> name_wf b -> (hname_eqb a b = true <-> key a = key b).
+Proof.
+  intros Ha Hb. destruct a as [i|x], b as [j|y]; cbn [key].
+  - rewrite (known_known i j (known_wf_bound _ Ha) (known_wf_bound _ Hb)). rewrite Nat.eqb_eq. split; [now intros ->| now intros [= ->]].
+  - destruct (unknown_vs_row y i Hb (known_wf_bound _ Ha)) as (H1 & H2).
+    unfold hname_eqb, hname_eq_str. cbn [hname_print hname_parse existsb]. rewrite H1, H2. cbn. split; discriminate.
+  - destruct (unknown_vs_row x j Ha (known_wf_bound _ Hb)) as (H1 & H2).
+    unfold hname_eqb, hname_eq_str. cbn [hname_print hname_parse existsb]. rewrite nocase_sym, H1. cbn [orb].
+    rewrite existsb_false; [split; discriminate|].
+    intros p Hp. rewrite orb_false_r. rewrite nocase_sym.
+    destruct (bytes_eqb_nocase p x) eqn:E; [|reflexivity].
+    assert (existsb (fun p => bytes_eqb_nocase p x) (snd (hn_entry j)) = true) by (apply existsb_exists; eauto). congruence.
+  - unfold hname_eqb, hname_eq_str. cbn [hname_print hname_parse existsb]. rewrite !orb_false_r.
+    rewrite nocase_iff. split; [now intros ->| now intros [= ->]].
+Qed.
+
+Lemma eqb_refl_wf n : name_wf n -> hname_eqb n n = true.
+Proof. intros H. now apply (eqb_key n n H H). Qed.
+
+Lemma eqb_false_key a b : name_wf a -> name_wf b -> (hname_eqb a b = false <-> key a <> key b).
+Proof.
+  intros Ha Hb. pose proof (eqb_key a b Ha Hb) as K. destruct (hname_eqb a b); split; intros H.
+  - discriminate.
+  - exfalso. apply H. now apply K.
+  - intros E. apply K in E. discriminate.
+  - reflexivity.
+Qed.
+
+Lemma known_wf : forallb (fun i => match hname_of (fst (hn_entry i)) with HKnown j => Nat.eqb i j | _ => false end) (seq 0 n_names) = true.
+Proof. vm_compute. reflexivity. Qed.
+
+Lemma known_name_wf i : i < n_names -> name_wf (HKnown i).
+Proof.
+  intros Hi. pose proof known_wf as T. rewrite forallb_forall in T.
+  specialize (T i (proj2 (in_seq _ _ _) (conj (Nat.le_0_l _) Hi))). unfold name_wf. cbn [hname_print].
+  destruct (hname_of (fst (hn_entry i))) as [j|]; [|discriminate]. apply Nat.eqb_eq in T. now subst.
+Qed.
+
+Lemma cl_name_wf : name_wf cl_name.
+Proof. apply known_name_wf. vm_compute. lia. Qed.
+
+(* ---------- the Headers multimap ---------- *)
+Definition keys (es : list entry) : list hkey := map (fun e => key (fst e)) es.
+Definition entry_wf (e : entry) : Prop := name_wf (fst e) /\ snd e <> [].
+
+Lemma not_in_keys_eqb n es : name_wf n -> Forall entry_wf es -> ~ In (key n) (keys es) ->
+  forall m vs, In (m, vs) es -> hname_eqb m n = false /\ hname_eqb n m = false.
+Proof.
+  intros Hn Hes Hnot m vs Hin. rewrite Forall_forall in Hes. destruct (Hes _ Hin) as [Hm _]. cbn [fst] in Hm.
+  assert (key m <> key n).
+  { intros E. apply Hnot. rewrite <- E. unfold keys. apply in_map_iff. exists (m, vs). auto. }
+  split; apply eqb_false_key; auto.
+Qed.
+
+Lemma insert_at n v es1 vs es2 : name_wf n -> Forall entry_wf es1 -> ~ In (key n) (keys es1) ->
+  h_insert n v (es1 ++ (n, vs) :: es2) = es1 ++ (n, vs ++ [v]) :: es2.
+Proof.
+  intros Hn. induction es1 as [|[m ws] es1 IH]; intros Hes Hnot; cbn [app h_insert].
+  - now rewrite (eqb_refl_wf n Hn).
+  - destruct (not_in_keys_eqb n _ Hn Hes Hnot m ws (or_introl eq_refl)) as [E _]. rewrite E.
+    f_equal. apply IH; [now inversion Hes| intros H; apply Hnot; right; exact H].
+Qed.
+
+Lemma insert_fresh n v es : name_wf n -> Forall entry_wf es -> ~ In (key n) (keys es) ->
+  h_insert n v es = es ++ [(n, [v])].
+Proof.
+  intros Hn. induction es as [|[m ws] es IH]; intros Hes Hnot; cbn [app h_insert]; [reflexivity|].
+  destruct (not_in_keys_eqb n _ Hn Hes Hnot m ws (or_introl eq_refl)) as [E _]. rewrite E.
+  f_equal. apply IH; [now inversion Hes| intros H; apply Hnot; right; exact H].
+Qed.
+
+Definition raw_of (nv : hname * bytes) : bytes * bytes := (hname_print (fst nv), snd nv).
+Definition ins (acc : list entry) (nv : bytes * bytes) : list entry := h_insert (hname_of (fst nv)) (snd nv) acc.
+
+Lemma fold_values n : name_wf n -> forall vs es1 ws, Forall entry_wf es1 -> ~ In (key n) (keys es1) ->
+  fold_left ins (map raw_of (map (pair n) vs)) (es1 ++ [(n, ws)]) = es1 ++ [(n, ws ++ vs)].
+Proof.
+  intros Hn. induction vs as [|v vs IH]; intros es1 ws Hes Hnot; cbn [map fold_left].
+  - now rewrite app_nil_r.
+  - replace (ins (es1 ++ [(n, ws)]) (raw_of (n, v))) with (es1 ++ [(n, ws ++ [v])]).
+    + rewrite IH by assumption. now rewrite <- app_assoc.
+    + unfold ins, raw_of. cbn [fst snd]. unfold name_wf in Hn. rewrite Hn. symmetry. exact (insert_at n v es1 ws [] Hn Hes Hnot).
+Qed.
+
+Lemma headers_of_iter : forall es2 es1, Forall entry_wf (es1 ++ es2) -> NoDup (keys (es1 ++ es2)) ->
+  fold_left ins (map raw_of (h_iter es2)) es1 = es1 ++ es2.
+Proof.
+  induction es2 as [|[n vs] es2 IH]; intros es1 Hwf Hnd.
+  - cbn. now rewrite app_nil_r.
+  - change (h_iter ((n, vs) :: es2)) with (map (pair n) vs ++ h_iter es2). rewrite map_app, fold_left_app.
+    assert (Hes1 : Forall entry_wf es1) by (apply Forall_app in Hwf; tauto).
+    assert (Hn : entry_wf (n, vs)) by (apply Forall_app in Hwf as [_ H]; now inversion H).
+    destruct Hn as [Hn Hvs]. cbn [fst snd] in Hn, Hvs.
+    assert (Hnot : ~ In (key n) (keys es1)).
+    { unfold keys in *. rewrite map_app in Hnd. cbn [map fst] in Hnd. apply NoDup_remove_2 in Hnd.
+      intros H. apply Hnd. apply in_or_app. now left. }
+    destruct vs as [|v vs]; [congruence|]. cbn [map fold_left].
+    replace (ins es1 (raw_of (n, v))) with (es1 ++ [(n, [v])])
+      by (unfold ins, raw_of; cbn [fst snd]; unfold name_wf in Hn; rewrite Hn; symmetry; exact (insert_fresh n v es1 Hn Hes1 Hnot)).
+    rewrite (fold_values n Hn vs es1 [v] Hes1 Hnot). cbn [app].
+    rewrite (IH (es1 ++ [(n, v :: vs)])); rewrite <- ?app_assoc; cbn [app]; auto.
+Qed.
+
+Lemma headers_of_print es : Forall entry_wf es -> NoDup (keys es) -> headers_of (map raw_of (h_iter es)) = es.
+Proof. intros Hw Hn. unfold headers_of. exact (headers_of_iter es [] Hw Hn). Qed.
+
+Lemma remove_spec n es : name_wf n -> Forall entry_wf es -> NoDup (keys es) ->
+  Forall entry_wf (h_remove n es) /\ NoDup (keys (h_remove n es)) /\ ~ In (key n) (keys (h_remove n es)) /\
+  (forall k, In k (keys (h_remove n es)) -> In k (keys es)) /\
+  (forall m, name_wf m -> key m <> key n -> h_values m (h_remove n es) = h_values m es).
+Proof.
+  intros Hn. induction es as [|[m ws] es IH]; intros Hes Hnd; cbn [h_remove].
+  - repeat split; auto; try constructor.
+  - inversion Hes as [|? ? Hm Hes']; subst. cbn [keys map fst] in Hnd. inversion Hnd as [|? ? Hnotin Hnd']; subst.
+    destruct Hm as [Hm Hws]. cbn [fst snd] in Hm, Hws.
+    destruct (hname_eqb n m) eqn:E.
+    + apply (eqb_key n m Hn Hm) in E. repeat split; auto.
+      * rewrite E. exact Hnotin.
+      * intros k Hk. right. exact Hk.
+      * intros x Hx Hne. cbn [h_values]. rewrite (proj2 (eqb_false_key m x Hm Hx)); [reflexivity|]. congruence.
+    + apply (eqb_false_key n m Hn Hm) in E.
+      destruct (IH Hes' Hnd') as (I1 & I2 & I3 & I4 & I5).
+      repeat split.
+      * constructor; [split; assumption| exact I1].
+      * cbn [keys map fst]. constructor; [|exact I2]. intros H. apply Hnotin. now apply I4.
+      * cbn [keys map fst]. intros [H|H]; [congruence| now apply I3].
+      * cbn [keys map fst]. intros k [H|H]; [now left| right; now apply I4].
+      * intros x Hx Hne. cbn [h_values]. destruct (hname_eqb m x); [reflexivity| now apply I5].
+Qed.
+
+Lemma values_insert_other n v m es : name_wf n -> name_wf m -> Forall entry_wf es -> key m <> key n ->
+  h_values m (h_insert n v es) = h_values m es.
+Proof.
+  intros Hn Hm. induction es as [|[x ws] es IH]; intros Hes Hne; cbn [h_insert h_values].
+  - rewrite (proj2 (eqb_false_key n m Hn Hm)); [reflexivity| congruence].
+  - inversion Hes as [|? ? [Hx _] Hes']; subst. cbn [fst] in Hx.
+    destruct (hname_eqb x n) eqn:E; cbn [h_values].
+    + apply (eqb_key x n Hx Hn) in E. rewrite (proj2 (eqb_false_key x m Hx Hm)); [reflexivity| congruence].
+    + destruct (hname_eqb x m); [reflexivity| now apply IH].
+Qed.
+
+(* ---------- str::trim leaves a decimal number alone ---------- *)
+Definition heads_differ (c : byte) (seqs : list bytes) : bool :=
+  forallb (fun q => match q with q0 :: _ => negb (Byte.eqb q0 c) | [] => false end) seqs.
+
+Lemma strip_any_none seqs c r : heads_differ c seqs = true -> strip_any seqs (c :: r) = None.
+Proof.
+  unfold heads_differ. induction seqs as [|q seqs IH]; cbn [forallb strip_any]; intros H; [reflexivity|].
+  apply andb_prop in H as [Hq Hs]. destruct q as [|q0 q']; [discriminate|]. cbn [strip_prefix].
+  apply negb_true_iff in Hq. rewrite Hq. now apply IH.
+Qed.
+
+Lemma digit_heads : forall c, is_digit c = true -> heads_differ c ws_seqs = true /\ heads_differ c ws_seqs_rev = true.
+Proof.
+  assert (H : forall c, (negb (is_digit c) || (heads_differ c ws_seqs && heads_differ c ws_seqs_rev)) = true)
+    by (apply byte_forallb; vm_compute; reflexivity).
+  intros c Hc. specialize (H c). rewrite Hc in H. cbn in H. now apply andb_prop in H.
+Qed.
+
+Lemma trim_digits s : s <> [] -> forallb is_digit s = true -> trim s = s.
+Proof.
+  intros Hne Hd. unfold trim.
+  assert (E1 : trim_start s = s).
+  { unfold trim_start. destruct s as [|c r]; [congruence|]. cbn [length trim_start_fuel].
+    cbn [forallb] in Hd. apply andb_prop in Hd as [Hc _]. now rewrite (strip_any_none _ c r (proj1 (digit_heads c Hc))). }
+  rewrite E1. unfold trim_end.
+  assert (Hr : forallb is_digit (rev s) = true).
+  { apply forallb_forall. intros x Hx. apply in_rev in Hx. rewrite forallb_forall in Hd. now apply Hd. }
+  destruct (rev s) as [|c r] eqn:Er.
+  - apply (f_equal (@rev byte)) in Er. rewrite rev_involutive in Er. now subst.
+  - rewrite <- (rev_length s), Er. cbn [length trim_start_rev_fuel].
+    cbn [forallb] in Hr. apply andb_prop in Hr as [Hc _]. rewrite (strip_any_none _ c r (proj2 (digit_heads c Hc))).
+    rewrite <- Er. apply rev_involutive.
+Qed.
+
+Lemma trim_print_dec n : trim (print_dec n) = print_dec n.
+Proof. apply trim_digits; [exact (proj2 (print_dec_value n)) | apply print_dec_digits]. Qed.
+
+(* ---------- ASCII text is UTF-8 ---------- *)
+Definition is_ascii (b : byte) : bool := (b2n b <=? 127)%N.
+
+Lemma utf8_ascii_fuel : forall s f, length s <= f -> forallb is_ascii s = true -> utf8_valid_fuel f s = true.
+Proof.
+  induction s as [|a r IH]; intros f Hf Ha; [destruct f; reflexivity|].
+  destruct f as [|f]; [simpl in Hf; lia|]. cbn [forallb] in Ha. apply andb_prop in Ha as [Ha Hr].
+  cbn [utf8_valid_fuel utf8_step]. unfold is_ascii in Ha. rewrite Ha. apply IH; [simpl in Hf; lia| exact Hr].
+Qed.
+
+Lemma utf8_ascii s : forallb is_ascii s = true -> utf8_valid s = true.
+Proof. intros H. unfold utf8_valid. now apply utf8_ascii_fuel. Qed.
+
+Lemma digit_ascii : forall b, is_digit b = true -> is_ascii b = true.
+Proof.
+  assert (H : forall b, (negb (is_digit b) || is_ascii b) = true) by (apply byte_forallb; vm_compute; reflexivity).
+  intros b Hb. specialize (H b). now rewrite Hb in H.
+Qed.
+
+(* ---------- assembling the round trip ---------- *)
+Definition entry_ok (e : entry) : Prop :=
+  name_wf (fst e) /\ snd e <> [] /\ Forall (fun v => hline_ok (hname_print (fst e), v)) (snd e).
+Definition headers_ok (es : list entry) : Prop := Forall entry_ok es /\ NoDup (keys es).
+Definition line_ok (l : bytes) : Prop := no_nl l /\ l <> [] /\ utf8_valid l = true.
+
+Lemma entry_ok_wf es : Forall entry_ok es -> Forall entry_wf es.
+Proof. apply Forall_impl. intros e (H1 & H2 & _). now split. Qed.
+
+Lemma iter_ok es : Forall entry_ok es -> Forall hline_ok (map raw_of (h_iter es)).
+Proof.
+  induction es as [|[n vs] es IH]; intros H; [constructor|].
+  inversion H as [|? ? (_ & _ & Hv) H']; subst. cbn [fst snd] in Hv.
+  change (h_iter ((n, vs) :: es)) with (map (pair n) vs ++ h_iter es). rewrite map_app. apply Forall_app. split; [|now apply IH].
+  clear -Hv. induction Hv; cbn [map]; constructor; auto.
+Qed.
+
+Lemma print_headers_tail l body :
+  flat_map (fun nv => print_header_line nv ++ crlf) l ++ crlf ++ body = tail_text (map raw_of l) body.
+Proof.
+  induction l as [|nv l IH]; cbn [flat_map map tail_text app]; [reflexivity|].
+  rewrite <- !app_assoc. rewrite IH. reflexivity.
+Qed.
+
+Lemma tail_text_length hs body : length hs <= length (tail_text hs body).
+Proof. induction hs as [|nv hs IH]; cbn [tail_text length]; [lia|]. rewrite !app_length. pose proof (raw_line_nonempty nv). destruct (raw_line nv); [congruence| simpl; lia]. Qed.
+
+Lemma remove_subset n es : forall e, In e (h_remove n es) -> In e es.
+Proof.
+  induction es as [|[m ws] es IH]; cbn [h_remove]; intros e H; [contradiction|].
+  destruct (hname_eqb n m); [now right|]. destruct H as [H|H]; [now left| right; now apply IH].
+Qed.
+
+Lemma not_cl n : name_wf n -> key n <> key cl_name -> is_cl_name (hname_print n) = false.
+Proof.
+  intros Hn Hk. assert (E : hname_eqb cl_name n = false) by (apply eqb_false_key; [apply cl_name_wf| exact Hn| congruence]).
+  unfold hname_eqb in E. apply orb_false_elim in E as [E _]. unfold hname_eq_str in E. apply orb_false_elim in E as [_ E].
+  change (hname_parse cl_name) with [s_content_length; s_l] in E. cbn [existsb] in E.
+  apply orb_false_elim in E as [E1 E]. apply orb_false_elim in E as [E2 _].
+  unfold is_cl_name. rewrite nocase_sym, E1, nocase_sym, E2. reflexivity.
+Qed.
+
+Lemma find_cl_last l d : (forall nv, In nv l -> is_cl_name (fst nv) = false) ->
+  find (fun nv : bytes * bytes => is_cl_name (fst nv)) (l ++ [(hname_print cl_name, d)]) = Some (hname_print cl_name, d).
+Proof.
+  induction l as [|nv l IH]; intros H; cbn [app find].
+  - reflexivity.
+  - rewrite (H nv (or_introl eq_refl)). apply IH. intros x Hx. apply H. now right.
+Qed.
+
+Lemma skipn_add {A} b : forall (l : list A) a, skipn (b + a) l = skipn a (skipn b l).
+Proof. induction b as [|b IH]; intros l a; [reflexivity|]. destruct l as [|x l]; cbn [Nat.add skipn]; [now rewrite skipn_nil| apply IH]. Qed.
+
+Lemma length_skipn_eq {A} p (l r : list A) : p <= length l -> skipn p l = r -> length l = p + length r.
+Proof. intros Hp <-. rewrite skipn_length. lia. Qed.
+
+Lemma cl_line_ok k : hline_ok (hname_print cl_name, print_dec k).
+Proof.
+  pose proof (print_dec_digits k) as Hd. pose proof (proj2 (print_dec_value k)) as Hne.
+  unfold hline_ok, raw_line. cbn [fst snd]. split; [|split; [|split]].
+  - vm_compute. reflexivity.
+  - unfold no_nl. apply forallb_forall. intros b Hb. rewrite forallb_forall in Hd. specialize (Hd b Hb).
+    assert (H : forall b, (negb (is_digit b) || negb (is_nl b)) = true) by (apply byte_forallb; vm_compute; reflexivity).
+    specialize (H b). now rewrite Hd in H.
+  - destruct (print_dec k) as [|c r]; [congruence|]. cbn [forallb] in Hd. apply andb_prop in Hd as [Hc _]. cbn [stops].
+    assert (H : forall b, (negb (is_digit b) || negb (is_ascii_ws b)) = true) by (apply byte_forallb; vm_compute; reflexivity).
+    specialize (H c). rewrite Hc in H. now apply negb_true_iff in H.
+  - apply utf8_ascii. rewrite !forallb_app. apply andb_true_intro. split; [vm_compute; reflexivity|].
+    apply andb_true_intro. split; [vm_compute; reflexivity|].
+    apply forallb_forall. intros b Hb. rewrite forallb_forall in Hd. apply digit_ascii. now apply Hd.
+Qed.
+
+Lemma NoDup_snoc {A} (l : list A) x : NoDup l -> ~ In x l -> NoDup (l ++ [x]).
+Proof.
+  induction l as [|a l IH]; intros Hn Hx; cbn [app]; [constructor; [intros []| constructor]|].
+  inversion Hn as [|? ? Ha Hl]; subst. constructor.
+  - intros H. apply in_app_or in H as [H|[H|[]]]; [contradiction| subst; apply Hx; now left].
+  - apply IH; [exact Hl| intros H; apply Hx; now right].
+Qed.
+
+Lemma tail_text_shape hs body : hs <> [] -> Forall hline_ok hs ->
+  exists c d r, tail_text hs body = c :: d :: r /\ is_lws c = false.
+Proof.
+  intros Hne Hok. destruct hs as [|nv hs']; [congruence|]. pose proof (Forall_inv Hok) as Hnv.
+  destruct (raw_line_shape nv (crlf ++ tail_text hs' body) Hnv) as (c & d & r & E & Hc & _). exists c, d, r. cbn [tail_text]. auto.
+Qed.
+
+Theorem message_roundtrip line es body :
+  sip_send_replaces_content_length = true ->
+  line_ok line -> headers_ok es -> (N.of_nat (length body) <= usize_max)%N ->
+  parse_message (encode_message line es body) = Some (line, sent_headers es body, body).
+Proof.
+  intros Hflag (Lnl & Lne & Lu) (Hok & Hnd) Hlen.
+  set (dec := print_dec (N.of_nat (length body))).
+  set (R := h_remove cl_name es).
+  destruct (remove_spec cl_name es cl_name_wf (entry_ok_wf _ Hok) Hnd) as (R1 & R2 & R3 & R4 & _). fold R in R1, R2, R3, R4.
+  assert (Esent : sent_headers es body = R ++ [(cl_name, [dec])]).
+  { unfold sent_headers. rewrite Hflag. fold dec R. apply insert_fresh; [apply cl_name_wf| exact R1| exact R3]. }
+  assert (RokF : Forall entry_ok R).
+  { apply Forall_forall. intros e He. rewrite Forall_forall in Hok. apply Hok. now apply (remove_subset cl_name es). }
+  assert (Sok : Forall entry_ok (R ++ [(cl_name, [dec])])).
+  { apply Forall_app. split; [exact RokF|]. constructor; [|constructor]. split; [apply cl_name_wf|]. split; [discriminate|].
+    cbn [fst snd]. constructor; [apply cl_line_ok| constructor]. }
+  assert (Snd : NoDup (keys (R ++ [(cl_name, [dec])]))).
+  { unfold keys. rewrite map_app. cbn [map fst]. apply NoDup_snoc; [exact R2| exact R3]. }
+  set (S := R ++ [(cl_name, [dec])]) in *.
+  set (hs := map raw_of (h_iter S)).
+  assert (Esrc : encode_message line es body = [] ++ line ++ crlf ++ tail_text hs body).
+  { unfold encode_message. rewrite Esent. fold S. unfold print_headers. cbn [app]. now rewrite print_headers_tail. }
+  assert (Hhs : Forall hline_ok hs) by (apply iter_ok; exact Sok).
+  assert (Ehs : hs = map raw_of (h_iter R) ++ [(hname_print cl_name, dec)]).
+  { unfold hs, S, h_iter. rewrite flat_map_app, map_app. reflexivity. }
+  set (src := encode_message line es body) in *.
+  assert (HF : length hs + 2 <= Datatypes.S (length src)).
+  { rewrite Esrc. rewrite !app_length. cbn [length app]. pose proof (tail_text_length hs body). destruct line; [congruence|]. simpl. lia. }
+  destruct (collect_lines body hs [] line true [] [] (Datatypes.S (length src)) Lnl Lne Lu eq_refl Hhs HF) as (p & Hcol & Hsk & Hle).
+  rewrite <- Esrc in Hcol, Hsk, Hle. cbn [length app] in Hcol.
+  unfold parse_message. rewrite Hcol.
+  (* framing *)
+  assert (Hhe : head_end src p = p + 4) by (unfold head_end; now rewrite Hsk).
+  assert (Hfind : find (fun nv : bytes * bytes => is_cl_name (fst nv)) hs = Some (hname_print cl_name, dec)).
+  { rewrite Ehs. apply find_cl_last. intros nv Hin. apply in_map_iff in Hin as ((n & v) & <- & Hin). cbn [raw_of fst].
+    unfold h_iter in Hin. apply in_flat_map in Hin as ((m & vs) & HinR & Hv). cbn [fst snd] in Hv. apply in_map_iff in Hv as (v' & [= <- <-] & _).
+    rewrite Forall_forall in R1. destruct (R1 _ HinR) as [Hm _]. cbn [fst] in Hm.
+    apply not_cl; [exact Hm|]. intros E. apply R3. rewrite <- E. unfold keys. apply in_map_iff. exists (m, vs). auto. }
+  assert (Hlsrc : length src = p + (4 + length body)).
+  { rewrite (length_skipn_eq p src _ Hle Hsk). reflexivity. }
+  assert (Hbody : skipn (p + 4) src = body) by (rewrite skipn_add, Hsk; reflexivity).
+  assert (Hdg : datagram_parse src = DgOk (p + 4) body).
+  { unfold datagram_parse. rewrite Hcol. rewrite Hhe, Hfind. unfold dec. rewrite trim_print_dec, (parse_print_dec usize_max _ Hlen).
+    destruct (N.eqb_spec (N.of_nat (length body)) 0) as [E0|E0].
+    - destruct body; [reflexivity| simpl in E0; lia].
+    - destruct (N.leb_spec (N.of_nat (p + 4) + N.of_nat (length body)) (N.of_nat (length src))) as [_|Hbad]; [|lia].
+      f_equal. unfold sub. rewrite Hbody. rewrite Nnat.Nat2N.id. replace (p + 4 + length body - (p + 4)) with (length body) by lia.
+      apply firstn_all. }
+  rewrite Hdg.
+  assert (Hfirst : first_line src = line).
+  { (* start line *)
+    unfold first_line.
+    assert (Hshape : exists c d r, tail_text hs body = c :: d :: r /\ is_lws c = false).
+    { apply tail_text_shape; [|exact Hhs]. intros E. rewrite Ehs in E. destruct (map raw_of (h_iter R)); discriminate. }
+    destruct Hshape as (c & d & r & Et & Hc).
+    pose proof (pull_line [] line c d r Lnl Lne Hc) as Hp. cbn [app length] in Hp. rewrite !Nat.add_0_r in Hp.
+    pose proof (sub_mid [] line (CR :: LF :: c :: d :: r)) as Hs. cbn [app length] in Hs. rewrite Nat.add_0_r in Hs.
+    rewrite Esrc, Et. cbn [crlf app]. rewrite Hp. exact Hs. }
+  assert (Hheaders : headers_of hs = sent_headers es body).
+  { rewrite Esent. fold S. apply headers_of_print; [apply entry_ok_wf; exact Sok| exact Snd]. }
+  now rewrite Hfirst, Hheaders.
+Qed.
+
+(* per header name, the ordered list of values is what was put in *)
+Lemma values_in n vs es : name_wf n -> Forall entry_wf es -> NoDup (keys es) -> In (n, vs) es -> h_values n es = vs.
+Proof.
+  intros Hn. induction es as [|[m ws] es IH]; intros Hes Hnd Hin; [contradiction|].
+  inversion Hes as [|? ? [Hm _] Hes']; subst. cbn [fst] in Hm. cbn [keys map fst] in Hnd. inversion Hnd as [|? ? Hnot Hnd']; subst.
+  cbn [h_values]. destruct Hin as [[= -> ->]|Hin].
+  - now rewrite (eqb_refl_wf n Hn).
+  - rewrite (proj2 (eqb_false_key m n Hm Hn)); [now apply IH|].
+    intros E. apply Hnot. rewrite E. unfold keys. apply in_map_iff. exists (n, vs). auto.
+Qed.
+
+Theorem sent_values es body n :
+  sip_send_replaces_content_length = true -> headers_ok es -> name_wf n -> key n <> key cl_name ->
+  h_values n (sent_headers es body) = h_values n es.
+Proof.
+  intros Hflag (Hok & Hnd) Hn Hk. unfold sent_headers. rewrite Hflag.
+  destruct (remove_spec cl_name es cl_name_wf (entry_ok_wf _ Hok) Hnd) as (R1 & _ & _ & _ & R5).
+  rewrite (values_insert_other cl_name _ n _ cl_name_wf Hn R1 Hk). now apply R5.
+Qed.
+
+Theorem sent_content_length es body :
+  sip_send_replaces_content_length = true -> headers_ok es ->
+  h_values cl_name (sent_headers es body) = [print_dec (N.of_nat (length body))].
+Proof.
+  intros Hflag (Hok & Hnd). unfold sent_headers. rewrite Hflag.
+  destruct (remove_spec cl_name es cl_name_wf (entry_ok_wf _ Hok) Hnd) as (R1 & R2 & R3 & _ & _).
+  rewrite (insert_fresh cl_name _ _ cl_name_wf R1 R3).
+  apply values_in; [apply cl_name_wf| | | apply in_or_app; right; now left].
+  - apply Forall_app. split; [exact R1|]. constructor; [|constructor]. split; [apply cl_name_wf| discriminate].
+  - unfold keys. rewrite map_app. apply NoDup_snoc; [exact R2| exact R3].
+Qed.
